@@ -1206,3 +1206,82 @@ func TestVerifScanLoop(t *testing.T) {
 		fmt.Printf("SCANLOOP-OK lateness=%v timeouts=%d (%s)\n", worst.Round(time.Millisecond), atomic.LoadUint64(&busy.timeoutCount), scenario)
 	}
 }
+
+// ---------------------------------------------------------------------------------------------
+// TestVerifScanWindowReplay: hook-steered replay, on the real Channel, of the schedule of
+// Props.C04.never_early_micro_false (known finding C04 `scan-window-requeue`): between the scan's
+// heap pop and its map pop (hook point chan.scan.afterPQPop) the holder REQs the message with delay
+// 0 and the same *Message is delivered again. Every step is one complete critical section of the
+// real code, so the schedule is one the Go scheduler can produce.
+//   SCANWINDOW reproduced=true …   the fresh delivery was timed out by the old scan (still broken)
+//   SCANWINDOW reproduced=false …  it stayed in flight until its own deadline
+func TestVerifScanWindowReplay(t *testing.T) {
+	opts := NewOptions()
+	opts.Logger = nil
+	opts.LogLevel = LOG_FATAL
+	opts.DataPath = t.TempDir()
+	opts.MemQueueSize = 100
+	opts.QueueScanInterval = time.Hour
+	opts.QueueScanRefreshInterval = time.Hour
+	_, _, nsqd := mustStartNSQD(opts)
+	defer nsqd.Exit()
+	defer vfE1PanicGuard("the scan-window replay", nil)()
+	defer VerifClearHooks()
+	c := nsqd.GetTopic("vf_scanwin").GetChannel("ch")
+	msg := &Message{ID: vfE1MsgID(1), Body: []byte("m")}
+	if err := c.StartInFlightTimeout(msg, 1, 10*time.Millisecond); err != nil {
+		t.Fatal(err)
+	}
+	oldDeadline := msg.pri
+	fresh := 60 * time.Second
+	var newDeadline int64
+	steps := []string{}
+	fired := false
+	VerifSetHook("chan.scan.afterPQPop", func(string) {
+		if fired {
+			return
+		}
+		fired = true
+		// the holder's REQ 0 …
+		if err := c.RequeueMessage(1, msg.ID, 0); err != nil {
+			steps = append(steps, "REQ failed: "+err.Error())
+			return
+		}
+		steps = append(steps, "REQ 0 by client 1 accepted")
+		// … and the pump of another consumer takes it from the memory queue and delivers it again
+		select {
+		case m := <-c.memoryMsgChan:
+			if err := c.StartInFlightTimeout(m, 2, fresh); err != nil {
+				steps = append(steps, "redelivery failed: "+err.Error())
+				return
+			}
+			newDeadline = m.pri
+			steps = append(steps, fmt.Sprintf("redelivered to client 2 (same object: %v), deadline now+%v", m == msg, fresh))
+		default:
+			steps = append(steps, "nothing to redeliver")
+		}
+	})
+	dirty := c.processInFlightQueue(oldDeadline) // a scan exactly at the first delivery's deadline
+	c.inFlightMutex.Lock()
+	_, stillInFlight := c.inFlightMessages[msg.ID]
+	inHeap := false
+	for _, m := range c.inFlightPQ {
+		if m == msg {
+			inHeap = true
+		}
+	}
+	c.inFlightMutex.Unlock()
+	released := 0
+	for {
+		select {
+		case <-c.memoryMsgChan:
+			released++
+			continue
+		default:
+		}
+		break
+	}
+	reproduced := fired && newDeadline != 0 && !stillInFlight && released > 0
+	fmt.Printf("SCANWINDOW reproduced=%v hook-fired=%v steps=%q scan-dirty=%v in-flight-map=%v heap=%v handed-to-put-again=%d early-by=%v\n",
+		reproduced, fired, steps, dirty, stillInFlight, inHeap, released, time.Duration(newDeadline-oldDeadline))
+}
